@@ -264,13 +264,25 @@ func (r *Reconciler) reconcileValidate(ctx context.Context, proposal *configapi.
 			rollbackIndex = config.Index
 			rollbackValues = make(map[string]*configapi.PathValue)
 			for path, changeValue := range details.Change.Values {
+				// A delete cascades to everything beneath the path: remember those values too
+				cascaded := false
+				if changeValue.Deleted {
+					for configPath, configValue := range config.Values {
+						if configPath != path && pathutils.IsSubPath(configPath, path) {
+							cascaded = true
+							if _, ok := rollbackValues[configPath]; !ok {
+								rollbackValues[configPath] = configValue
+							}
+						}
+					}
+				}
 				deletedParentPath, deletedParentValue := applyChangeToConfig(changeValues, path, changeValue)
 				if deletedParentValue != nil {
 					rollbackValues[deletedParentPath] = deletedParentValue
 				}
 				if configValue, ok := config.Values[path]; ok {
 					rollbackValues[path] = configValue
-				} else {
+				} else if !cascaded {
 					rollbackValues[path] = &configapi.PathValue{
 						Path:    path,
 						Deleted: true,
@@ -317,7 +329,7 @@ func (r *Reconciler) reconcileValidate(ctx context.Context, proposal *configapi.
 			switch targetProposal.Details.(type) {
 			case *configapi.Proposal_Change:
 				for path, rollbackValue := range targetProposal.Status.RollbackValues {
-					changeValues[path] = rollbackValue
+					_, _ = applyChangeToConfig(changeValues, path, rollbackValue)
 				}
 				rollbackIndex = targetProposal.Status.RollbackIndex
 				rollbackValues = targetProposal.Status.RollbackValues
